@@ -197,7 +197,7 @@ Section WithQueryer.
     apply guarded_bind; [apply lookup_guarded|]. intros [ | | | | ].
     - (* LResp *)
       apply g_choose. intros [|[|cls]] _.
-      + destruct (inspectb _) as [E|E]; [|apply g_ret]. brk. apply REC; unfold rank, W in *; cbn [b2n negb]; lia.
+      + destruct (inspectb _) as [E|E]; [|apply validated_guarded; apply g_ret]. brk. apply REC; unfold rank, W in *; cbn [b2n negb]; lia.
       + destruct (inspectb _) as [E|E]; [|apply validated_guarded; apply answer_step_guarded]. brk. apply REC; unfold rank, W in *; cbn [b2n negb]; lia.
       + apply g_choose. intros [|[|[|[|[|[|sub]]]]]] _; try apply g_ret.
         * destruct (inspectb _) as [E|E]; [|apply g_ret]. brk. apply REC; unfold rank, W in *; cbn [b2n negb]; lia.
@@ -254,7 +254,7 @@ Section WithQueryer.
     { intros. eapply c_weaken; [apply REC; eassumption|unfold left, rest; lia]. }
     intros [ | | | | ].
     - apply c_choose. intros [|[|cls]] _.
-      + destruct (inspectb _) as [E|E]; [|apply c_ret]. brk. apply RECw; unfold rank, W in *; cbn [b2n negb]; lia.
+      + destruct (inspectb _) as [E|E]; [|apply c_weaken with (n := V + 0); [apply validated_costs; apply c_ret|unfold left; nia]]. brk. apply RECw; unfold rank, W in *; cbn [b2n negb]; lia.
       + destruct (inspectb _) as [E|E].
         * brk. apply RECw; unfold rank, W in *; cbn [b2n negb]; lia.
         * eapply c_weaken; [apply validated_costs; apply answer_step_costs|unfold left; nia].
